@@ -10,8 +10,7 @@ Notation extR := (@ext R).
 
 (* ---------------------------------------------------------------- hypotheses *)
 (* what the theorems assume of a tree on an n-dimensional space: convexity-preserving
-   scalars, vectors of the right length, and the one place where the class flag
-   [is_linear] is unsound (an affine QuadraticPerturb of a linear functional) excluded *)
+   scalars and vectors of the right length *)
 Fixpoint wf (n : nat) (e : fxR) : Prop :=
   match e with
   | FLp _ | FIndBall _ | FL2Sq | FConst _ | FIndZero _ => True
@@ -25,27 +24,13 @@ Fixpoint wf (n : nat) (e : fxR) : Prop :=
   | FSum f g | FInfConv f g => wf n f /\ wf n g
   | FScalarSum f _ | FDefConj f | FBreg f => wf n f
   | FTransl f t => length t = n /\ wf n f
-  | FQuadPert f a u c =>
-      0 <= a /\ length u = n /\ wf n f /\ (is_linear f = true -> a = 0 -> c = 0)
+  | FQuadPert f a u _ => 0 <= a /\ length u = n /\ wf n f
   | FSep2 k f g => (k <= n)%nat /\ wf k f /\ wf (n - k) g
-  end.
-
-Fixpoint lin_ok (e : fxR) : Prop :=
-  match e with
-  | FLp _ | FIndBall _ | FL2Sq | FConst _ | FIndZero _ | FHuber _ | FQuadS _ _ _ => True
-  | FLeft _ f | FRight _ f | FRightVec _ f | FScalarSum f _ | FDefConj f | FTransl f _ | FBreg f => lin_ok f
-  | FSum f g | FInfConv f g | FSep2 _ f g => lin_ok f /\ lin_ok g
-  | FQuadPert f a _ c => lin_ok f /\ (is_linear f = true -> a = 0 -> c = 0)
   end.
 
 Ltac fxind e :=
   induction e as [p|p| |c|c|g|a b c|s f IHf|s f IHf|v f IHf|f IHf g IHg|f IHf c|f IHf t|f IHf a u c
                  |f IHf g IHg|f IHf|q IHq|k f IHf g IHg].
-
-Lemma wf_lin_ok e : forall n, wf n e -> lin_ok e.
-Proof.
-  fxind e; intros n0 Hwf; cbn [wf lin_ok] in *; auto; intuition eauto.
-Qed.
 
 Lemma fin_ok_eq (a b : R) : a = b -> @Ok extR (EFin a) = Ok (EFin b).
 Proof. intros ->; reflexivity. Qed.
@@ -166,59 +151,55 @@ Lemma is_linear_mkLeft s (g : fxR) : is_linear (mkLeft s g) = is_linear g.
 Proof. destruct g; reflexivity. Qed.
 Lemma is_linear_mkRight s (g : fxR) : is_linear (mkRight s g) = is_linear g.
 Proof. destruct g; reflexivity. Qed.
-Lemma lin_ok_mkLeft s g : lin_ok (mkLeft s g) <-> lin_ok g.
-Proof. destruct g; reflexivity. Qed.
-Lemma lin_ok_mkRight s g : lin_ok (mkRight s g) <-> lin_ok g.
-Proof. destruct g; reflexivity. Qed.
-Lemma lin_ok_mkTransl g t : lin_ok (mkTransl g t) <-> lin_ok g.
-Proof. destruct g; reflexivity. Qed.
-Lemma lin_ok_mul_right g a : lin_ok (mul_right g a) <-> lin_ok g.
-Proof. unfold mul_right. destruct (is_linear g); [apply lin_ok_mkLeft | apply lin_ok_mkRight]. Qed.
-Lemma lin_ok_rmul s g : lin_ok g -> lin_ok (rmul s g).
-Proof. unfold rmul. destruct (s =? nzero)%num; [exact (fun _ => I) | apply lin_ok_mkLeft]. Qed.
-
 (* ---------------------------------------------- soundness of the linear flag *)
 Lemma firstn_vscal k a (x : Rvec) : firstn k (vscal a x) = vscal a (firstn k x).
 Proof. unfold vscal. apply firstn_map. Qed.
 Lemma skipn_vscal k a (x : Rvec) : skipn k (vscal a x) = vscal a (skipn k x).
 Proof. unfold vscal. apply skipn_map. Qed.
 
-Lemma lin_sound e : lin_ok e -> is_linear e = true -> forall w x a,
+Lemma vmul_vscal_x a (x v : Rvec) : vmul (vscal a x) v = vscal a (vmul x v).
+Proof.
+  revert v; induction x as [|p x IH]; intros [|q v]; unfold vmul, vscal in *; cbn [map vmap2]; try reflexivity.
+  rewrite IH. numR. f_equal. ring.
+Qed.
+
+Lemma lin_sound e : is_linear e = true -> forall w x a,
   match val e w x with
   | Ok v => exists r, v = EFin r /\ val e w (vscal a x) = Ok (EFin (a * r))
   | Err er => val e w (vscal a x) = Err er
   end.
 Proof.
-  fxind e; intros Hok Hlin w x k0; cbn [is_linear lin_ok] in *; try discriminate.
+  fxind e; intros Hlin w x k0; cbn [is_linear] in *; try discriminate.
   - (* FConst *) numR. destruct (Reqb_spec c 0); [|discriminate]. subst.
     cbn [value]. eexists; split; [reflexivity|]. fin_ring.
   - (* FQuadS *) destruct a; [discriminate|]. numR. destruct (Reqb_spec c 0); [|discriminate]. subst.
     destruct b; cbn [value]; [|reflexivity]. eexists; split; [reflexivity|].
     rewrite wdot_vscal_r. numR. fin_ring.
-  - (* FLeft *) specialize (IHf Hok Hlin w x k0). cbn [value].
+  - (* FLeft *) specialize (IHf Hlin w x k0). cbn [value].
     destruct (val f w x) as [v|]; [|rewrite IHf; reflexivity].
     destruct IHf as (r & -> & ->). cbn [rbind escal]. eexists; split; [reflexivity|]. numR. fin_ring.
-  - (* FRight *) specialize (IHf Hok Hlin w (vscal s x) k0). cbn [value].
+  - (* FRight *) specialize (IHf Hlin w (vscal s x) k0). cbn [value].
     rewrite (vscal_comm s k0). exact IHf.
-  - (* FSum *) apply andb_true_iff in Hlin. destruct Hlin as [L1 L2]. destruct Hok as [O1 O2].
-    specialize (IHf O1 L1 w x k0). specialize (IHg O2 L2 w x k0). cbn [value]. unfold radd.
+  - (* FRightVec *) specialize (IHf Hlin w (vmul x v) k0). cbn [value].
+    rewrite vmul_vscal_x. exact IHf.
+  - (* FSum *) apply andb_true_iff in Hlin. destruct Hlin as [L1 L2].
+    specialize (IHf L1 w x k0). specialize (IHg L2 w x k0). cbn [value]. unfold radd.
     destruct (val f w x) as [v1|]; [|rewrite IHf; reflexivity]. destruct IHf as (r1 & -> & ->). cbn [rbind].
     destruct (val g w x) as [v2|]; [|rewrite IHg; reflexivity]. destruct IHg as (r2 & -> & ->). cbn [rbind eadd].
     eexists; split; [reflexivity|]. numR. fin_ring.
   - (* FScalarSum *) apply andb_true_iff in Hlin. destruct Hlin as [L1 L2]. numR.
     destruct (Reqb_spec c 0); [|discriminate]. subst.
-    specialize (IHf Hok L1 w x k0). cbn [value]. unfold radd.
+    specialize (IHf L1 w x k0). cbn [value]. unfold radd.
     destruct (val f w x) as [v1|]; [|rewrite IHf; reflexivity]. destruct IHf as (r1 & -> & ->). cbn [rbind eadd].
     eexists; split; [reflexivity|]. numR. fin_ring.
-  - (* FQuadPert *) apply andb_true_iff in Hlin. destruct Hlin as [L1 L2]. numR.
-    destruct (Reqb_spec a 0); [|discriminate]. subst. destruct Hok as [O1 O2].
-    specialize (O2 L1 eq_refl). subst.
-    specialize (IHf O1 L1 w x k0). cbn [value].
+  - (* FQuadPert *) apply andb_true_iff in Hlin. destruct Hlin as [L12 L3].
+    apply andb_true_iff in L12. destruct L12 as [L1 L2]. numR.
+    destruct (Reqb_spec a 0); [|discriminate]. destruct (Reqb_spec c 0); [|discriminate]. subst.
+    specialize (IHf L1 w x k0). cbn [value].
     destruct (val f w x) as [v1|]; [|rewrite IHf; reflexivity]. destruct IHf as (r1 & -> & ->). cbn [rbind eadd].
     eexists; split; [reflexivity|]. rewrite !wdot_vscal_l, ?wdot_vscal_r. numR. fin_ring.
-  - (* FDefConj *) cbn [value]. reflexivity.
-  - (* FSep2 *) apply andb_true_iff in Hlin. destruct Hlin as [L1 L2]. destruct Hok as [O1 O2].
-    specialize (IHf O1 L1 (firstn k w) (firstn k x) k0). specialize (IHg O2 L2 (skipn k w) (skipn k x) k0).
+  - (* FSep2 *) apply andb_true_iff in Hlin. destruct Hlin as [L1 L2].
+    specialize (IHf L1 (firstn k w) (firstn k x) k0). specialize (IHg L2 (skipn k w) (skipn k x) k0).
     cbn [value]. unfold radd. rewrite firstn_vscal, skipn_vscal.
     destruct (val f (firstn k w) (firstn k x)) as [v1|]; [|rewrite IHf; reflexivity].
     destruct IHf as (r1 & -> & ->). cbn [rbind].
@@ -229,11 +210,11 @@ Qed.
 
 (* Functional.__mul__(scalar): the LeftScalarMult chosen for flagged-linear operands
    has the same values as the RightScalarMult *)
-Lemma val_mul_right g a w y : lin_ok g ->
+Lemma val_mul_right g a w y :
   val (mul_right g a) w y = val g w (vscal a y).
 Proof.
-  intros Hok. unfold mul_right. destruct (is_linear g) eqn:L; [|apply val_mkRight].
-  pose proof (lin_sound g Hok L w y a) as H.
+  unfold mul_right. destruct (is_linear g) eqn:L; [|apply val_mkRight].
+  pose proof (lin_sound g L w y a) as H.
   destruct (val g w y) as [v|] eqn:E.
   - destruct H as (r & -> & ->). apply val_mkLeft_fin. assumption.
   - rewrite H. apply val_mkLeft_err. assumption.
